@@ -16,6 +16,7 @@ hidden from `all_bodies()`: its code is analysed where it is used.
 """
 import json
 import os
+import re
 
 HERE = os.path.dirname(os.path.abspath(__file__))
 BASELINE = os.path.join(HERE, "baseline_fns.json")
@@ -166,6 +167,7 @@ COMBINATORS = {
     "core::bool::<impl bool>::then": ("bool", "then"), "core::bool::<impl bool>::then_some": ("bool", "then_some"),
     "std::ops::RangeInclusive::<Idx>::contains": ("range", "inclusive"), "std::ops::Range::<Idx>::contains": ("range", "exclusive"),
     "std::convert::From::from": ("from", "prim"),
+    "std::ops::FnOnce::call_once": ("fncall", "call"), "std::ops::FnMut::call_mut": ("fncall", "call"), "std::ops::Fn::call": ("fncall", "call"),
 }
 PRIMS = ("bool", "u8", "u16", "u32", "u64", "u128", "usize", "i8", "i16", "i32", "i64", "i128", "isize")
 
@@ -328,6 +330,49 @@ def expand_call(F, bld, bi, depth, stack):
     go = lambda b: {"t": "goto", "target": b, "sp": sp, "exp": False}
     sw = lambda op, zero, other: {"t": "switch", "discr": op, "discr_ty": "bool", "targets": [[0, zero]], "otherwise": other, "sp": sp, "exp": False,
                                   "expanded_call": t["callee"].get("def")}
+    if fam == "fncall":
+        # `f(x)` where f is a function parameter of an inlined helper bound to a fn item or a closure of this crate: call it directly
+        fop = args[0]
+        for _ in range(8):
+            q = fop.get("m") or fop.get("c")
+            if q is None or [e for e in q["p"] if e != "deref"]:
+                break
+            d = unique_def(bld, q["l"])
+            if d is None or d[0] != "rv":
+                break
+            rv = d[1]
+            if rv["r"] == "use":
+                fop = rv["o"]
+            elif rv["r"] == "ref" and not [e for e in rv["p"]["p"] if e != "deref"]:
+                fop = {"c": {"l": rv["p"]["l"], "p": []}}
+            else:
+                break
+        is_fn = bool(fop.get("k")) and "fn" in fop["k"]
+        is_closure = closure_of(F, bld, fop) is not None
+        if not (is_fn or is_closure) or len(args) != 2:
+            return False
+        # the argument tuple
+        tq = args[1].get("m") or args[1].get("c")
+        ops = None
+        if tq is not None and not tq["p"]:
+            d = unique_def(bld, tq["l"])
+            if d is not None and d[0] == "rv" and d[1]["r"] == "agg" and d[1].get("agg") == "tuple":
+                ops = list(d[1]["ops"])
+        elif "k" in args[1]:
+            ops = []
+        if ops is None:
+            return False
+        tmps, pre = [], []
+        for o in ops:
+            tl = bld.local("?", "arg")
+            pre.append(assign(tl, as_copy(o) if "k" not in o else o, sp))
+            tmps.append(P(tl))
+        entry = apply_fn(F, bld, fop, tmps, dest, target, unwind, sp, depth, stack)
+        if entry is None:
+            return False
+        blk["stmts"] = list(blk["stmts"]) + pre
+        blk["term"] = dict(go(entry), expanded_call=t["callee"].get("def"))
+        return True
     if fam == "from":
         # `u64::from(flag)`, `usize::from(byte)`: the lossless conversions between primitive integers are casts
         ca = t["callee"].get("args") or []
@@ -496,6 +541,34 @@ def expand_call(F, bld, bi, depth, stack):
     return True
 
 
+def instantiate(F, craw, d, t):
+    """A generic helper is inlined with its type parameters replaced by the call's generic arguments (in the strings that name
+    callees, their generic arguments and receiver types): `select_with::<Identity>` reads `SelectSupport::<Identity>`, not `<T>`."""
+    gens = (F.fns.get(d) or [{}])[0].get("generics") or []
+    args = t["callee"].get("args") or []
+    if not gens or len(gens) != len(args):
+        return craw
+    sub = [(g["name"], a) for g, a in zip(gens, args) if not g.get("lifetime") and g["name"] != a and re.match(r"^[A-Z][A-Za-z0-9]*$", g["name"])]
+    if not sub:
+        return craw
+
+    def rep(x):
+        if isinstance(x, str):
+            for n, a in sub:
+                if n in x:
+                    x = re.sub(r"(?<![A-Za-z0-9_:])%s(?![A-Za-z0-9_])" % re.escape(n), a.replace("\\", "\\\\"), x)
+            return x
+        if isinstance(x, list):
+            return [rep(y) for y in x]
+        if isinstance(x, dict):
+            return {k: (rep(v) if k in ("callee", "args", "inst", "self_ty", "s", "ty", "def_args", "impl_self", "fn_args", "dest_ty", "arg_tys") or isinstance(v, (dict, list)) else v)
+                    for k, v in x.items()}
+        return x
+    out = dict(craw)
+    out["mir"] = rep(craw["mir"])
+    return out
+
+
 def prepare(F, raw, depth=0, stack=()):
     """Returns (normalised raw, names of helpers / closures absorbed into it). raw itself is never modified."""
     cache = F.__dict__.setdefault("_inline_cache", {})
@@ -527,6 +600,7 @@ def prepare(F, raw, depth=0, stack=()):
         bld.absorbed |= sub
         blk = bld.m["blocks"][bi]
         t = blk["term"]
+        craw = instantiate(F, craw, d, t)
         entry, binds = bld.splice(craw, t["args"], t["dest"], t.get("target"), t.get("unwind"), t["sp"], d)
         blk["stmts"] = list(blk["stmts"]) + binds
         blk["term"] = {"t": "goto", "target": entry, "sp": t["sp"], "exp": t.get("exp", False), "inlined_call": d}
